@@ -155,8 +155,94 @@ def flatten(goal, guard=None):
     return [goal]
 
 
+class CContract(Contract):
+    """Sidecar contract for one function of traits/ctraits.c (executed by vc/cvc)."""
+    lang = "c"
+    path = "traits/ctraits.c"
+    own = False               # check reference neutrality (C18) in this unit
+
+    @property
+    def owner_class(self):
+        return None
+
+    @property
+    def fname(self):
+        return self.qualname
+
+    def c_setup(self, cx, ex, ov):
+        """-> (state, argument terms, info)"""
+        raise NotImplementedError
+
+    def c_post(self, cx, ex, ov, info, ret, st):
+        raise NotImplementedError
+
+
+def generate_c(contract, ov):
+    from .cvc import core as C, api as A, front
+    r = front.function(contract.qualname)
+    if r is None:
+        raise Unsupported("C function %s not found in ctraits.c" % contract.qualname)
+    decl, params, rty, sha = r
+    cx = C.CCx()
+    cx.axioms += A.base_axioms()
+    api = A.Api(cx)
+    ex = C.CExec(cx, api, front)
+    ex.label_ids = C.label_ids(decl)
+    contract.configure(cx, ex, ov)
+    st, args, info = contract.c_setup(cx, ex, ov)
+    if contract.own or getattr(contract, "own_overloads", None) and ov in contract.own_overloads:
+        own0 = z3.Const("own0", z3.ArraySort(C.Obj, z3.IntSort()))
+        st = st.with_own(own0)
+        info["own0"] = own0
+    outcomes = ex.run_function(decl, args, st, lambda v, st2: [("return", v, st2)])
+    name0 = "%s[%s]" % (contract.cid, ov)
+    obs = []
+    cover_preds = contract.covers(cx, ov, info)
+    cover_hits = {n: [] for n, _ in cover_preds}
+    for idx, (kind, ret, st2) in enumerate(outcomes):
+        for cl in contract.c_post(cx, ex, ov, info, ret, st2):
+            cname, goal = cl[0], cl[1]
+            w = dict(info.get("witness", {}))
+            w.update(cl[2] if len(cl) > 2 else {})
+            props = cl[3] if len(cl) > 3 else contract.properties
+            goal = goal if z3.is_expr(goal) else z3.BoolVal(bool(goal))
+            parts = flatten(goal)
+            for pi, part in enumerate(parts):
+                obs.append(Obligation("%s/%s" % (name0, cname), list(st2.pc), part, kind=cname.split(":")[0], props=props,
+                                      witness=w, concretise=info.get("concretise"),
+                                      meta=dict(path=idx, part=pi, nparts=len(parts), chain="%s#%d" % (cname, idx))))
+        for n, pred in cover_preds:
+            c = pred(ret, st2)
+            if c is True or (z3.is_expr(c) and not z3.is_false(z3.simplify(c))):
+                cover_hits[n].append((st2, c))
+    seen = set()
+    for (n, pc, goal, wit) in cx.side_obligations:
+        key = (n, tuple(x.get_id() for x in pc), goal.get_id())
+        if key in seen:
+            continue
+        seen.add(key)
+        w = dict(info.get("witness", {}))
+        w.update(wit)
+        kindname = n.split(":")[0]
+        props = contract.side_props.get(kindname, contract.properties) if hasattr(contract, "side_props") else contract.properties
+        obs.append(Obligation("%s/%s" % (name0, n), pc, goal, kind=kindname, props=props, witness=w,
+                              concretise=info.get("concretise")))
+    for n, hits in cover_hits.items():
+        if not hits:
+            obs.append(Obligation("%s/cover:%s" % (name0, n), [], z3.BoolVal(False), kind="cover", props=contract.properties,
+                                  expect_sat=True, meta=dict(note="no path matches")))
+        else:
+            st2, c = hits[0]
+            obs.append(Obligation("%s/cover:%s" % (name0, n), list(st2.pc), z3.BoolVal(True) if c is True else c, kind="cover",
+                                  props=contract.properties, expect_sat=True))
+    line = decl.get("loc", {}).get("line") or (decl.get("loc", {}).get("expansionLoc") or {}).get("line")
+    return cx, obs, dict(sha=sha, paths=len(outcomes), lines=(line, None))
+
+
 def generate(contract, ov):
     """Symbolically execute the real function; -> (cx, obligations, meta)."""
+    if getattr(contract, "lang", "py") == "c":
+        return generate_c(contract, ov)
     fn, seg, sha, owner = source.get_function(contract.path, contract.qualname)
     from .pyvc import values as _values
     _values.reset_defs()
@@ -220,7 +306,10 @@ def verify_unit(contract, ov, timeout_ms=None, workers=1):
         ur.hints = sorted(set(cx.hints))
         ur.notes = list(cx.notes)
         from .pyvc import values as _values
-        axioms = list(cx.axioms) + cx.distinct_consts_axiom() + list(_values.DEFS)
+        if getattr(contract, "lang", "py") == "c":
+            axioms = list(cx.axioms)
+        else:
+            axioms = list(cx.axioms) + cx.distinct_consts_axiom() + list(_values.DEFS)
         groups, bychain = [], {}
         for ob in obs:
             ch = ob.meta.get("chain")
